@@ -54,7 +54,7 @@ package packetmap
 //@
 //@ func (*Map).Drop
 //@   safe
-//@   props C01 C02 C04 C12
+//@   props C01 C02 C03 C04 C12
 //@   requires nonnil: m != nil
 //@   requires unlocked: !held(m.mu)
 //@   requires wf: wf(m) && contiguous(m)
